@@ -6,7 +6,9 @@ package post
 
 import (
 	"fmt"
+	"os"
 	"testing"
+	"time"
 
 	"github.com/talostrading/sonic"
 	"pgregory.net/rapid"
@@ -23,6 +25,19 @@ func TestC05_BurstThenNested(t *testing.T) {
 			rt.Fatalf("INFRA: NewIO: %v", err)
 		}
 		defer ioc.Close()
+		// "Post itself never blocks indefinitely or deadlocks the loop": everything below runs on one goroutine, so a Post
+		// or a PollOne that never returns would hang the test process until the go test deadline (which the driver reads as
+		// an infrastructure problem). A case takes milliseconds; one that is still running after 60 s is reported here.
+		caseDone := make(chan struct{})
+		defer close(caseDone)
+		go func() {
+			select {
+			case <-caseDone:
+			case <-time.After(60 * time.Second):
+				fmt.Printf("WATCHDOG: a sequential history of Post and PollOne calls (bursts, handlers posting from inside the loop) has not finished after 60 s: a Post or a PollOne call never returned\n")
+				os.Exit(1)
+			}
+		}()
 		var trace []string
 		runs := map[int]int{}
 		var order []int
